@@ -52,13 +52,17 @@ def content_only(obs):
 
 
 # ------------------------------------------------------------------ C09
-def relayout(pkg: docgen.Pkg, rng: random.Random) -> docgen.Pkg:
+def relayout(pkg: docgen.Pkg, rng: random.Random, mode: str | None = None) -> docgen.Pkg:
     """rename parts and relocate them at or below the referring part's directory;
     relative or package-absolute targets; reuse relationship ids across parts"""
     new = docgen.Pkg()
     new.binaries = dict(pkg.binaries)
     new.features = set(pkg.features)
     base = rng.choice(["word", "content", "a/b", "w0rd/sub.dir"])
+    if mode == "dotdir":
+        base = ".hidden"        # D14: a top-level directory starting with '.'
+    if mode == "samedir":
+        base = "word"           # D14: parts in word/word/, referenced relatively as word/<leaf>
     rename = {}
     # one renaming per kind of part, so that the path order among parts of one kind
     # (which decides the order of their content) is preserved
@@ -84,6 +88,8 @@ def relayout(pkg: docgen.Pkg, rng: random.Random) -> docgen.Pkg:
         leaf = {"same": leaf, "suffix": stem + "_x.xml", "prefix": "p_" + leaf, "subdir": "sub/" + leaf,
                 "upper": stem.upper() + ".xml"}[styles[k]]
         rename[name] = f"{base}/{leaf}"
+        if mode == "samedir" and name != "word/document.xml":
+            rename[name] = f"word/word/{leaf}"
     for name, root in pkg.parts.items():
         new.parts[rename[name]] = root
     doc_new = rename["word/document.xml"]
@@ -92,12 +98,12 @@ def relayout(pkg: docgen.Pkg, rng: random.Random) -> docgen.Pkg:
     def target_for(src_part_new: str, old_target_abs: str) -> str:
         tgt_new = rename.get(old_target_abs, old_target_abs)
         src_dir = os.path.dirname(src_part_new)
-        if rng.random() < 0.35 or not tgt_new.startswith(src_dir + "/"):
+        if (rng.random() < 0.35 and mode != "samedir") or not tgt_new.startswith(src_dir + "/"):
             return "/" + tgt_new
         rel = tgt_new[len(src_dir) + 1:]
         # a relative target must not itself start with the segments of the directory (D14)
         if rel.split("/")[: len(src_dir.split("/"))] == src_dir.split("/"):
-            return "/" + tgt_new
+            return rel if mode == "samedir" else "/" + tgt_new
         return rel
 
     for rels_name, rows in pkg.rels.items():
@@ -144,8 +150,11 @@ def eval_layout(state, arg):
         if any(o[0][0][0] != 0 or any(t[0] != 0 for t in o[0][1]) for o in base):
             res["features"].append("unreadable")
             return res
+        mode = stream[5:] if stream.startswith("edge:") else None
+        if mode:
+            res["features"].append("layout_" + mode)
         for k in range(2):
-            p2 = relayout(pkg, rng)
+            p2 = relayout(pkg, rng, mode)
             data = p2.to_bytes()
             obs = observe_all(data, state["model"])
             for (impl, mod), (bimpl, _), (html, dup) in zip(obs, base, OPTS):
